@@ -16,7 +16,7 @@ for pid in props:
         "evidence_file": f"evidence/{pid}.json",
         "replay_cmd_template": f"./check {pid} --replay {{path}}",
         "engine": "lean-proof+correspondence",
-        "level_claimed": {"category": "proof", "text": c["text"], "design_ref": f"DESIGN.md §7 {pid}"},
+        "level_claimed": {"category": "proof", "text": c["text"], "design_ref": f"DESIGN.md §7 {pid}; as built: §11.6, §11.7, notes/{pid}-report.md"},
         "level_note": c["note"],
         "technique": c["technique"],
     })
